@@ -1,5 +1,5 @@
 SPECIFICATION TraceSpec
-CONSTANTS N = 86400 MaxSteps = 1000 InvertStartBySecTruncation = FALSE
+CONSTANTS N = 86400 MaxSteps = 1000 InvertStartBySecTruncation = FALSE CaptureAtJoinEpoch = FALSE MaxJoinSteps = 1000
 CONSTANT Lons <- LonsAll
 CONSTANT Theta0s <- ThetasAll
 CONSTANT StartSecs <- Secs60
